@@ -10,7 +10,7 @@ CRATE = dict(
         "ExponentialRandomBackoff::randomize": dict(rules=[
             ("sub", "R14-rng", r"use rand::Rng;", "", 1),
             ("sub", "R14-rng", r"let mut rng = rand::rng\(\);", "", 1),
-            ("sub", "R14-rng", r"rng\s*\.\s*random_range\(\s*min\s*\.\.=\s*max\s*\)", "vx_random_range(min, max)", 1),
+            ("sub", "R14-rng", r"rng\s*\.\s*random_range\(\s*([\w.]+(?:\([^()]*\))?)\s*\.\.=\s*([\w.]+(?:\([^()]*\))?)\s*\)", r"vx_random_range(\1, \2)", 1),
             # the conversion itself is std's; its documented panic condition becomes an assertion on the argument
             ("sub", "R14-conv", r"Duration::from_secs_f64\(", "vx_from_secs_f64(", 1),
             # as_secs_f64 is std's: its result is a finite f64 in [0, 2^64) and the same for the same duration (assumed)
